@@ -310,6 +310,32 @@ func (c *Ctx) orientRule(rule string) int {
 					later := false
 					for _, c2 := range callsIn(fi.Decl.Body, false) {
 						if g := calleeOf(info, c2); g != nil && reorients[g.Name()] && c2.Pos() > sr.Pos() {
+							// the re-orientation must lie on the paths of the ConnectNodes: its own
+							// conditions follow from those under which the branch was created
+							a, ok1 := c.pathConds(info, fi.Decl.Body, connNode(fi.Decl.Body, cn.pos), false)
+							b, ok2 := c.pathConds(info, fi.Decl.Body, c2, false)
+							boolOnly := func(cs []cond) []cond {
+								var out []cond
+								for _, cd := range cs {
+									if cd.Expr == nil {
+										continue
+									}
+									if _, isId := unparen(cd.Expr).(*ast.Ident); isId {
+										out = append(out, cd)
+									} else if u, isU := unparen(cd.Expr).(*ast.UnaryExpr); isU {
+										if _, isId := unparen(u.X).(*ast.Ident); isId {
+											out = append(out, cd)
+										}
+									}
+								}
+								return out
+							}
+							if ok1 && ok2 {
+								imp, _, _, err := gfImplies(c.condsToBexpr(info, boolOnly(a), nil), c.condsToBexpr(info, boolOnly(b), nil))
+								if err == nil && !imp {
+									continue
+								}
+							}
 							later = true
 						}
 					}
@@ -323,4 +349,16 @@ func (c *Ctx) orientRule(rule string) int {
 		}
 	}
 	return n
+}
+
+// connNode finds the call expression at pos.
+func connNode(body ast.Node, pos token.Pos) ast.Node {
+	var out ast.Node = body
+	ast.Inspect(body, func(n ast.Node) bool {
+		if cl, ok := n.(*ast.CallExpr); ok && cl.Pos() == pos {
+			out = cl
+		}
+		return true
+	})
+	return out
 }
